@@ -8,6 +8,7 @@ use crate::verif_spec as spec;
 // @harness c15_split_guest_offset
 // @props C15 C01 C09 C02
 // @tier quick
+// @cost 19
 // @timeout 600
 // @desc every method of SplitGuestOffset on the geometry derived by the real Qcow2Info::new equals the spec's index formulas (l1_index, l2_index, in-cluster offset), index composition reproduces the offset, slice key / slice index / slice byte offset are the quotient / remainder of the L2 index by the slice length, and two offsets share a cached slice and slot iff they lie in the same cluster
 // @bounds guest offsets a, b: all u64; cluster_bits 9..=21, slice bits block..cluster, block bits 9..=12 all symbolic
